@@ -15,6 +15,7 @@ ProtoRun::~ProtoRun() { vsim_probe_set(nullptr, nullptr); g_q = nullptr; }
 void ProtoRun::probe_cb(const vsim_probe_t *p, void *arg) {
     ProtoRun *self = (ProtoRun *) arg;
     self->probe_next = p->seq + 1;
+    self->audit.on_probe(p);
     if (p->kind != VSIM_PR_GCM_ENC && p->kind != VSIM_PR_CHACHA_ENC && p->kind != VSIM_PR_CBC_ENC) { return; }
     if (self->obs.seals.size() > 20000) { return; }
     SealRec s;
@@ -72,6 +73,14 @@ void ProtoRun::filter_record(Record &r, std::vector<Bytes> &out) {
     int dir = r.dir;
     int role_sender = dir == DIR_C2S ? 0 : 1;
     if (obs.death[role_sender].dead) { check_after_death_output(role_sender, r.raw); }
+    {
+        // C17: CBC-protected records as they appear on the wire
+        MxEndpoint &snd = w.ep(dir);
+        bool prot = pc.dtls() ? r.epoch > 0 : ccs_emitted[dir];
+        uint32_t suite = snd.alive() ? snd.negotiated_suite() : 0;
+        if (prot && suite && !suite_is_aead((uint16_t) suite) && !suite_is_tls13((uint16_t) suite) && r.type != 20) { audit.on_wire_cbc_record(snd.ssl, r.raw.data() + r.hdr, r.body_len(), pc.dtls()); }
+        if (r.type == 20) { ccs_emitted[dir] = true; }
+    }
     Armed &a = armed[dir];
     if (captured_reset) { have_held[0] = have_held[1] = false; captured_reset = false; }
     Unit u; u.b = r.raw;
@@ -381,8 +390,9 @@ void ProtoRun::run() {
     // session that populates the client's durable resumption state
     bool want_sibling = plan.get("sibling") != 0 || plan.get("resume") != 0;
     if (want_sibling) {
-        captured_reset = true;
+        captured_reset = true; ccs_emitted[0] = ccs_emitted[1] = false;
         if (!w.connect()) { setup_failed = true; setup_detail = "sibling connect failed"; g_q = nullptr; return; }
+        audit.add_session(w.cli->ssl, vsim_sizeof_ssl(), w.cli->node, pc.dtls()); audit.add_session(w.srv->ssl, vsim_sizeof_ssl(), w.srv->node, pc.dtls());
         deliver_all();
         bool ok = w.cli->is_complete() && w.srv->is_complete();
         if (ok) {
@@ -399,8 +409,10 @@ void ProtoRun::run() {
     }
     captured_reset = true;
     armed[0].on = armed[1].on = false; pending_gap[0] = pending_gap[1] = false; swap_pending[0] = swap_pending[1] = false;
-    next_honest[0] = next_honest[1] = 0;
+    next_honest[0] = next_honest[1] = 0; ccs_emitted[0] = ccs_emitted[1] = false;
     if (!w.connect(plan.get("resume") != 0)) { setup_failed = true; setup_detail = "connect failed cli=" + std::to_string(w.cli ? w.cli->create_rc : 0) + " srv=" + std::to_string(w.srv ? w.srv->create_rc : 0); g_q = nullptr; return; }
+    audit.sessions.clear();
+    audit.add_session(w.cli->ssl, vsim_sizeof_ssl(), w.cli->node, pc.dtls()); audit.add_session(w.srv->ssl, vsim_sizeof_ssl(), w.srv->node, pc.dtls());
     for (auto &op : plan.ops) { do_op(op); }
     // final flush so late outputs of dead endpoints are audited
     w.collect(DIR_C2S); w.collect(DIR_S2C);
